@@ -7,8 +7,9 @@
 (*          'obj.meth > v' observes exactly the calls whose receiver *is* obj.            *)
 (* M level: selector._resolve adds a capture of the receiver parameter constrained by     *)
 (*          value (Selector.check_captures compares with ==) and interns the element by   *)
-(*          hashing its fields (InternedMC): equal receivers are confused, an unhashable  *)
-(*          receiver makes selector creation fail.                                        *)
+(*          hashing its fields (InternedMC).  With the receiver itself as the value equal  *)
+(*          receivers are confused and an unhashable receiver makes selector creation fail *)
+(*          (pinned tree); the repaired tree wraps it in MatchIdentity.                    *)
 EXTENDS Integers, Sequences, FiniteSets, TLC
 Objs == {"k1", "k2", "s1", "e1", "e2", "e3", "u1", "u2"}
 ClassOf(o) == CASE o \in {"k1", "k2"} -> "K" [] o = "s1" -> "Sub" [] o \in {"e1", "e2", "e3"} -> "E" [] o \in {"u1", "u2"} -> "U"
@@ -21,6 +22,9 @@ AAccepts(target) == TRUE
 \* every class of the population inherits K's method: selecting it through any of them names the same function
 AFires(target, recv) == IF target \in Classes THEN TRUE ELSE recv = target
 \* ------------- M level
-MAccepts(target) == target \in Classes \/ Hashable(target)
-MFires(target, recv) == IF target \in Classes THEN TRUE ELSE EqKey(recv) = EqKey(target)
+\* IdentityMatch: the receiver constraint is a MatchIdentity wrapper (== is `is`, hash is id) - since fix 46f934a: before it the
+\* receiver itself was the constraint value: compared with ==, interned by hash (equal receivers confused, unhashable refused)
+IdentityMatch == TRUE
+MAccepts(target) == target \in Classes \/ IdentityMatch \/ Hashable(target)
+MFires(target, recv) == IF target \in Classes THEN TRUE ELSE IF IdentityMatch THEN recv = target ELSE EqKey(recv) = EqKey(target)
 =============================================================================
